@@ -17,6 +17,7 @@ import (
 	"encoding/json"
 	"fmt"
 	"net/url"
+	"strings"
 	"testing"
 	"unicode/utf8"
 
@@ -86,7 +87,15 @@ func c13InDomain(s string) bool {
 	if err != nil {
 		return false
 	}
-	return u.User == nil
+	if u.User != nil {
+		return false
+	}
+	// a host with at most one port
+	host := u.Host
+	if i := strings.LastIndex(host, "]"); i >= 0 {
+		host = host[i+1:]
+	}
+	return strings.Count(host, ":") <= 1
 }
 
 func sameRef(f *vstat.Failure, what string, want, got spec.Ref) {
@@ -259,6 +268,9 @@ func ReplayC13case(variant string, raw json.RawMessage) *vstat.Failure {
 	var c c13Case
 	if err := json.Unmarshal(raw, &c); err != nil {
 		return &vstat.Failure{Atoms: []vstat.Atom{{Kind: "HARNESS", Detail: err.Error()}}}
+	}
+	if !c13InDomain(c.S) {
+		return &vstat.Failure{} // outside the domain of the statement
 	}
 	f, _ := oracleC13(c)
 	return f
